@@ -7,9 +7,9 @@ import random
 
 ATOMS = {
     "LF": "\n", "CR": "\r", "TAB": "\t", "SP": " ", "VT": "\x0b", "FF": "\x0c",
-    "NBSP": " ", "IDSP": "　", "LSEP": " ", "PSEP": " ", "NEL": "\u0085",
-    "ENSP": " ", "EACUTE": "é", "CJK": "中", "EMOJI": "\U0001F600", "COMB": "́",
-    "UUML": "ü", "KANA": "カ",
+    "NBSP": "\u00a0", "IDSP": "\u3000", "LSEP": "\u2028", "PSEP": "\u2029", "NEL": "\u0085",
+    "ENSP": "\u2002", "EACUTE": "\u00e9", "CJK": "\u4e2d", "EMOJI": "\U0001F600", "COMB": "\u0301",
+    "UUML": "\u00fc", "KANA": "\u30ab",
 }
 TRIVIA = ("WS", "LCOM", "BCOM", "DOC")
 
